@@ -38,6 +38,17 @@ def walk_arrays(o, path='', out=None, seen=None, depth=0):
     elif hasattr(o, '__dict__') and type(o).__module__.startswith('teneva'):
         seen.add(id(o))
         walk_arrays(vars(o), f'{path}.', out, seen, depth + 1)
+    elif callable(o) and getattr(o, '__closure__', None) and \
+            str(getattr(o, '__module__', '')).startswith('teneva'):
+        # a function handed back by the library (cdf_getter, getter): the
+        # arrays captured in its closure are part of the result
+        seen.add(id(o))
+        for j, cell in enumerate(o.__closure__):
+            try:
+                walk_arrays(cell.cell_contents, f'{path}<closure {j}>', out,
+                    seen, depth + 1)
+            except ValueError:
+                pass
     return out
 
 
